@@ -164,11 +164,11 @@ theorem C08_identity_stable (cfg : Cfg) (ps : PS) (r : Req) :
   step_identity cfg ps r
 
 /-- **Bystanders are invisible.**  Connections being made and lost and other (refused) requests on other
-    connections leave the pair-setup state unchanged: a history of events behaves exactly like the
-    sequence of its pair-setup requests. -/
-theorem C08_bystanders_invisible (cfg : Cfg) (ps : PS) (evs : List Ev) :
+    connections leave the pair-setup state unchanged: a history of events (in which the owner does not
+    unpair the accessory) behaves exactly like the sequence of its pair-setup requests. -/
+theorem C08_bystanders_invisible (cfg : Cfg) (ps : PS) (evs : List Ev) (hu : ∀ e ∈ evs, e ≠ Ev.unpair) :
     runEv cfg ps evs = run cfg ps (reqsOf evs) :=
-  runEv_eq_run cfg evs ps
+  runEv_eq_run cfg evs ps hu
 
 /-- **Completeness under interleaving and after any history**: `C08_complete` for any event list whose
     pair-setup requests are exactly the controller's three (bystander connections coming and going and
@@ -176,7 +176,7 @@ theorem C08_bystanders_invisible (cfg : Cfg) (ps : PS) (evs : List Ev) :
     abandoned or completed-but-unrecorded exchange).  A bystander's own pair-setup request is excluded:
     any connection may replace the single SRP session with its M1 (DESIGN §9). -/
 theorem C08_complete_interleaved (cfg : Cfg) (ps0 : PS) (salt bRand : Bytes) (a : Nat)
-    (ident cltpk csig u s2 b2 s3 b3 : Bytes) (evs : List Ev)
+    (ident cltpk csig u s2 b2 s3 b3 : Bytes) (evs : List Ev) (hu : ∀ e ∈ evs, e ≠ Ev.unpair)
     (hp : ps0.paired = []) (hN : 1 < cfg.G.N) (hg : Nat.Coprime cfg.G.g cfg.G.N)
     (ok : CryptoOK cfg.c ps0.ltpk) (huuid : cfg.c.uuidOf ident = some u) :
     let srv := Srp.mk cfg.c.H cfg.G SRP_USER ps0.pincode salt (bytesToNat bRand)
@@ -189,7 +189,7 @@ theorem C08_complete_interleaved (cfg : Cfg) (ps0 : PS) (salt bRand : Bytes) (a 
     (runEv cfg ps0 evs).2 = [.m2 salt srv.Bb, .m4 cl.HAMK, .m6 (cfg.c.aeadEnc key NONCE6 (accSub ps0 sig))] ∧
     (runEv cfg ps0 evs).1.paired = [(u, cltpk, PERM_ADMIN)] := by
   intro srv cl key sig hevs hsig
-  rw [runEv_eq_run, hevs]
+  rw [runEv_eq_run cfg evs ps0 hu, hevs]
   have h := C08_complete cfg ps0 salt bRand a ident cltpk csig u s2 b2 s3 b3 hp hN hg ok huuid hsig
   exact ⟨h.1, h.2.2.2⟩
 
